@@ -14,7 +14,7 @@ CONSTANT Mode
 VARIABLE c
 
 Shapes == [extra : {0, 2}, unicode : BOOLEAN, nest : BOOLEAN, ws : {0, 1, 2},
-           look : {"none", "top", "nested", "escaped"}, time : {0, 1, 2, 3}]
+           look : {"none", "top", "nested", "escaped", "signerfold"}, time : {0, 1, 2, 3}]
 Default == [extra |-> 0, unicode |-> FALSE, nest |-> FALSE, ws |-> 0, look |-> "none", time |-> 2]
 NonDefault(s) == {f \in DOMAIN s : s[f] # Default[f]}
 AllOn(s) == s.extra = 2 /\ s.unicode /\ s.nest /\ s.ws # 0 /\ s.look # "none"
